@@ -72,6 +72,14 @@ theorem ext_cidset (cs : List Bytes) :
     ∃ ds, decodeCidSet (encodeCidSet cs) = some ds ∧ ds.Nodup ∧ ∀ c, c ∈ ds ↔ c ∈ cs :=
   ⟨dedup cs, decodeCidSet_encode cs, nodup_dedup cs, fun c => mem_dedup c cs⟩
 
+/-- members of a cid set are FULL binary CIDs: the CIDv0, CIDv1/dag-pb and CIDv1/raw spellings of one
+multihash are three different members, and all three survive (a test of concrete values; the
+general statement is `ext_cidset`) -/
+example :
+    let mh : Bytes := 0x12 :: 0x20 :: List.replicate 32 7
+    decodeCidSet (encodeCidSet [mh, 1 :: 0x70 :: mh, 1 :: 0x55 :: mh]) = some [mh, 1 :: 0x70 :: mh, 1 :: 0x55 :: mh] := by
+  decide +kernel
+
 /-! ## the codec: DAG-CBOR round trip -/
 
 /-- canonical = well-formed (`wfVal`), nested at most 1024 deep, and every map already in the
